@@ -130,9 +130,35 @@ def check(run):
     run.ob('V4/two-crc32-of-interleaved-halves', 'Verifier.__init__', 'k1 = hex(crc32(key[0::2]) & 0xffffffff); k2 = hex(crc32(key[1::2]) & 0xffffffff)',
            ok, vm.where(init), str(ks))
     mn = [n for n in ast.walk(init) if isinstance(n, ast.Assign) and u(n.targets[0]) == 'modulename']
-    ok = len(mn) == 1 and u(mn[0].value) == "'_cffi_%s_%s%s%s' % (tag, self._vengine._class_key, k1, k2)"
+    ok = len(mn) == 1 and isinstance(mn[0].value, ast.BinOp) and isinstance(mn[0].value.op, ast.Mod) and isinstance(mn[0].value.left, ast.Constant) and \
+        isinstance(mn[0].value.left.value, str) and mn[0].value.left.value.startswith('_cffi_') and mn[0].value.left.value.count('%s') == 4 and \
+        re.sub(r'%s', '', mn[0].value.left.value).isidentifier() and \
+        isinstance(mn[0].value.right, ast.Tuple) and [u(x) for x in mn[0].value.right.elts] == ['tag', 'self._vengine._class_key', 'k1', 'k2']
     run.ob('V4/name-built-from-tag-engine-and-both-crcs', 'Verifier.__init__', "modulename = '_cffi_%s_%s%s%s' % (tag, class_key, k1, k2)", ok,
            vm.where(mn[0]) if mn else None)
+    # the pair of checksums can be read back from the name: the statements from `k1 = ...` to `modulename = ...` are walked with the
+    # two CRCs bound to chosen values; pairs whose hex digits line up across the split point must still give different names
+    from ..pyast import sympath as sp
+    blocks = [n for n in ast.walk(init) if isinstance(getattr(n, 'body', None), list) and mn and mn[0] in n.body] + \
+             [n for n in ast.walk(init) if isinstance(getattr(n, 'orelse', None), list) and mn and mn[0] in n.orelse]
+    run.need(bool(blocks), 'Verifier.__init__: the block that computes the module name not found')
+    blk = blocks[0].body if mn[0] in getattr(blocks[0], 'body', []) else blocks[0].orelse
+    first = min(i for i, st in enumerate(blk) if isinstance(st, ast.Assign) and u(st.targets[0]) == 'k1')
+    stmts = blk[first:blk.index(mn[0]) + 1]
+
+    def name_for(c1, c2):
+        vals = iter((c1, c2))
+        ev = sp.Evaluator({'binascii.crc32': lambda a, k, e, f: next(vals), 'hex': lambda a, k, e, f: hex(a[0]) if isinstance(a[0], int) else sp.Opq('hex(?)')})
+        ps = ev.block(stmts, {'tag': 'g', 'self._vengine._class_key': 'g', 'key': sp.Opq('key')}, [], [])
+        if len(ps) != 1 or not isinstance(ps[0].env.get('modulename'), str):
+            from .. import AnalysisError
+            raise AnalysisError('Verifier.__init__: the module name is not a string decided by the two checksums (%r)' % (ps[0].env.get('modulename') if ps else None,))
+        return ps[0].env['modulename']
+    pairs = [((0x0abcdef1, 0x23456789), (0xabcdef12, 0x03456789)), ((0x1, 0x23), (0x12, 0x3)), ((0x0, 0x5), (0x5, 0x0)), ((0xa0, 0x0b), (0xa, 0xb)), ((0x7fffffff, 0x1), (0x7fffffff, 0x10))]
+    for p1, p2 in pairs:
+        n1, n2 = name_for(*p1), name_for(*p2)
+        run.ob('V4/the-two-checksums-can-be-told-apart-in-the-name', 'Verifier.__init__', 'crc pairs %s and %s' % (tuple(map(hex, p1)), tuple(map(hex, p2))), n1 != n2, vm.where(mn[0]),
+               'both give %r: different inputs share a module name without any CRC32 collision, and the second verify() loads the first one\'s compiled module' % n1)
     # cdef() records the text as given
     api = cffi_mod('api')
     cd = api.find('FFI._cdef')
